@@ -879,3 +879,88 @@ Proof.
     { pose proof (firstn_length i (store_steps c order st outs src)) as Hl. rewrite He in Hl. lia. }
     rewrite !firstn_all2 by lia. apply roundtrip; assumption.
 Qed.
+
+(* ------------------------------------------------------------------------------------------ *)
+(* the property, its refutation and the part that holds *)
+
+Definition statement_for (c : bool) (order : list path) (st : fs) (outs : list str) (src : tree)
+    (crash_ok race_ok : Prop) : Prop :=
+  let steps := store_steps c order st outs src in
+  let new := Hit (pack src outs) in
+  retrieve c (run steps st) outs = new
+  /\ (key_absent st = true -> retrieve c st outs = Miss)
+  /\ (crash_ok -> forall n, let r := retrieve c (run (firstn n steps) st) outs in
+        r = Miss \/ r = new \/ r = retrieve c st outs)
+  /\ (race_ok -> forall i j, i <= j ->
+        let r := retrieve2 c (run (firstn i steps) st) (run (firstn j steps) st) outs in
+        r = Miss \/ r = new \/ r = retrieve c st outs).
+
+Lemma partial_holds c order st outs src : inputs_ok c st outs src ->
+  statement_for c order st outs src (crash_defect c st outs = None) (race_defect c st = None).
+Proof.
+  intros Hok. pose proof Hok as (Hwf & Hnd & Hne & Hp & _). unfold statement_for. cbn zeta. repeat split.
+  - apply roundtrip; assumption.
+  - intros Ha. apply retrieve_miss. apply key_absent_sub. exact Ha.
+  - intros Hd n. apply crash_atomic; assumption.
+  - unfold race_defect. destruct (key_absent st) eqn:Ha; [|discriminate]. intros _ i j Hij.
+    destruct (race_absent c order st outs src Hok Ha i j Hij) as [H | H]; [left|right; left]; exact H.
+Qed.
+
+(* witness 1 (crash): the key holds a directory output d = {a, b}; the same tree is stored again
+   and the process dies after the first unlink of Store's RemoveAll.  The prior state is what the
+   model's own Store produces from an empty cache. *)
+Definition w_src : tree := [([s "d"], D); ([s "d"; s "a"], F (s "1") false); ([s "d"; s "b"], F (s "2") false)].
+Definition w_outs : list str := [s "d"].
+Definition w_prior (c : bool) : fs := run (store_steps c [] [] w_outs w_src) [].
+
+Lemma w_inputs_ok c : inputs_ok c (w_prior c) w_outs w_src.
+Proof.
+  unfold inputs_ok. repeat split.
+  - repeat constructor. intros [].
+  - discriminate.
+  - destruct c; reflexivity.
+Qed.
+
+Lemma w_crash_partial_hit :
+  retrieve false (run (firstn 1 (store_steps false [] (w_prior false) w_outs w_src)) (w_prior false)) w_outs
+  = Hit [([s "d"], D); ([s "d"; s "a"], F (s "1") false)].
+Proof. vm_compute. reflexivity. Qed.
+
+(* witness 2 (schedule, compressed): the existence check sees the old tarball, the open happens
+   after Store's RemoveAll: a hit that restores nothing *)
+Lemma w_race_compressed :
+  let steps := store_steps true [] (w_prior true) w_outs w_src in
+  retrieve2 true (run (firstn 0 steps) (w_prior true)) (run (firstn 1 steps) (w_prior true)) w_outs = Hit [].
+Proof. vm_compute. reflexivity. Qed.
+
+(* witness 3 (schedule, uncompressed): the files are read while the old entry is being removed *)
+Lemma w_race_plain :
+  let steps := store_steps false [] (w_prior false) w_outs w_src in
+  retrieve2 false (run (firstn 0 steps) (w_prior false)) (run (firstn 2 steps) (w_prior false)) w_outs
+  = Hit [([s "d"], D)].
+Proof. vm_compute. reflexivity. Qed.
+
+Lemma full_refuted :
+  ~ (forall c order st outs src, inputs_ok c st outs src -> statement_for c order st outs src True True).
+Proof.
+  intros H. destruct (H false [] (w_prior false) w_outs w_src (w_inputs_ok false)) as (_ & _ & Hc & _).
+  specialize (Hc I 1). cbn zeta in Hc. rewrite w_crash_partial_hit in Hc.
+  destruct Hc as [Hc | [Hc | Hc]]; [discriminate Hc| |]; vm_compute in Hc; discriminate Hc.
+Qed.
+
+Lemma full_refuted_plain :
+  ~ (forall c order st outs src, inputs_ok c st outs src ->
+       let steps := store_steps c order st outs src in
+       let new := Hit (pack src outs) in
+       retrieve c (run steps st) outs = new
+       /\ (key_absent st = true -> retrieve c st outs = Miss)
+       /\ (forall n, let r := retrieve c (run (firstn n steps) st) outs in
+             r = Miss \/ r = new \/ r = retrieve c st outs)
+       /\ (forall i j, i <= j ->
+             let r := retrieve2 c (run (firstn i steps) st) (run (firstn j steps) st) outs in
+             r = Miss \/ r = new \/ r = retrieve c st outs)).
+Proof.
+  intros H. apply full_refuted. intros c order st outs src Hok.
+  destruct (H c order st outs src Hok) as (H1 & H2 & H3 & H4). unfold statement_for. cbn zeta.
+  repeat split; auto.
+Qed.
